@@ -24,6 +24,6 @@ def currentCfg : Cfg := {
   cloneRegsFiltered := true,
   cloneRegsByValue := true,
   extKeepRegs := true,
-  extLeafCopied := true
+  extLeafCopied := false
 }
 end PyGql.Generated.HeapCfg
